@@ -110,6 +110,18 @@ structure StatsS where
   i : Stats.Icpt := []
   n : Nat := 0
 
+/-- the n-th feedback event of the stats harness for one bound stream, at `g` ms: an outgoing compound
+packet (one or two sender reports, an XR with 1..4 RRTR blocks), then an incoming receiver report
+with 1..3 report blocks for the stream. -/
+def statsFeedback (i : Stats.Icpt) (n g ssrc : Nat) : Stats.Icpt × Nat :=
+  let b := n * 1048576
+  let srs : List Stats.Rtcp := if n % 2 = 1 then [.sr ssrc b 0 0 [], .sr ssrc (b + 1) 0 0 []] else [.sr ssrc b 0 0 []]
+  let xr : Stats.Rtcp := .xr ssrc ((List.range (1 + n % 4)).map fun j => .rrtr (b + 16 + j))
+  let i1 := Stats.Icpt.step i (.rtcpOut (srs ++ [xr]))
+  let reports : List Stats.Report := (List.range (1 + n % 3)).map fun j =>
+    ⟨ssrc, (n + j) % 256, n % 1000, (n + j) % 4294967296, j, 0, 0⟩
+  (Stats.Icpt.step i1 (.rtcpIn (946684800000000000 + (g : Int) * 1000000) [.rr 9 reports]), n)
+
 /-! ### jitter buffer interceptor -/
 
 abbrev JB := JitterBuffer.JB JitterBuffer.listImpl
@@ -137,7 +149,9 @@ after every step (they do not influence the queues; `Props/C12` proves it) -/
 
 abbrev LSt := Pacing.LSt Unit
 
-def forgetL (s : LSt) : LSt := { s with processed := [], delivered := [] }
+/-- the ghost histories, and the log of writer calls (only read to look up the failure schedule
+`fails`, which this machine never sets), are dropped. -/
+def forgetL (s : LSt) : LSt := { s with processed := [], delivered := [], calls := [] }
 
 def leakySize (s : LSt) : List (String × Nat) := [("queue", s.queue.length), ("writers", s.writers.length)]
 
@@ -176,7 +190,7 @@ inductive Ev where
   | bind (ssrc : Nat)
   | packet (g ssrc seq : Nat) (lost : Bool)
   | adv (g' : Nat)                 -- virtual time reaches g' ms (1 ms after g' - 1): timers fire
-  | feedback (bound : List Nat)    -- the kind's feedback event (streams currently bound, ascending)
+  | feedback (g : Nat) (bound : List Nat)   -- the kind's feedback event at g ms (streams currently bound, ascending)
   | unbind (ssrc : Nat)
   | close
 
@@ -230,13 +244,11 @@ def K.step (k : K) (closed : Bool) : Ev → K
     | .leaky s => if g' % 5 = 0 then .leaky (forgetL (getOk s (Pacing.lexec (fun _ => 12) Pacing.lItem s (.tick (g' * 1000000))))) else k
     | .pacing s => if g' % 5 = 0 then .pacing { s with st := forgetP (Pacing.exec pcfg s.st (.tick (g' * 1000000))) } else k
     | k => k
-  | .feedback bound =>
+  | .feedback g bound =>
     match k with
     | .rtpfb s => .rtpfb s.feedback
     | .stats s =>
-      let r := bound.foldl (fun (acc : Stats.Icpt × Nat) ssrc =>
-        let n := acc.2 + 1
-        (acc.1.step (.rtcpOut [.sr ssrc n 0 0 [], .xr ssrc [.rrtr n]]), n)) (s.i, s.n)
+      let r := bound.foldl (fun (acc : Stats.Icpt × Nat) ssrc => statsFeedback acc.1 (acc.2 + 1) g ssrc) (s.i, s.n)
       .stats { i := r.1, n := r.2 }
     | k => k
   | .unbind ssrc =>
@@ -303,7 +315,7 @@ def K.new (c : NewCfg) : Option K :=
 
 /-! ### phases: the deterministic schedule shared with the Go harness -/
 
-inductive Workload | inorder | loss | dup | reorder
+inductive Workload | inorder | loss | dup | reorder | idle
   deriving DecidableEq, Repr
 
 /-- the deliveries of one slot: `r = g % p`. -/
@@ -316,6 +328,7 @@ def slotPackets (w : Workload) (p r seq : Nat) : List (Nat × Bool) :=
     if r = p - 2 then [((seq + 1) % 65536, false)]
     else if r = p - 1 then [((seq + 65535) % 65536, false)]
     else [(seq, false)]
+  | .idle => []
 
 /-- the driver's state around the interceptor. -/
 structure M where
@@ -329,17 +342,23 @@ def M.ev (m : M) (e : Ev) : M := { m with k := m.k.step m.closed e }
 
 def sortedBound (m : M) : List Nat := (m.bound.toArray.qsort (· < ·)).toList
 
-/-- one slot of a phase. -/
-def M.slot (m : M) (w : Workload) (ssrc p fb : Nat) : M :=
+/-- one slot of a phase: the stream is `ssrc + g % rr` (round-robin over `rr` streams). -/
+def M.slot (m : M) (w : Workload) (ssrc0 rr p fb : Nat) : M :=
+  let ssrc := ssrc0 + m.g % rr
   let seq := ((m.next.find? (·.1 == ssrc)).map (·.2)).getD 0
   let m1 := (slotPackets w p (m.g % p) seq).foldl (fun m q => m.ev (.packet m.g ssrc q.1 q.2)) m
   let m2 := { m1 with next := put m1.next ssrc ((seq + 1) % 65536), g := m1.g + 1 }
   let m3 := m2.ev (.adv m2.g)
-  if fb > 0 ∧ m3.g % fb = 0 then m3.ev (.feedback (sortedBound m3)) else m3
+  if fb > 0 ∧ m3.g % fb = 0 then m3.ev (.feedback m3.g (sortedBound m3)) else m3
 
-def M.phase (m : M) (w : Workload) (ssrc p fb : Nat) : Nat → M
+def M.phase (m : M) (w : Workload) (ssrc0 rr p fb : Nat) : Nat → M
   | 0 => m
-  | n + 1 => (m.slot w ssrc p fb).phase w ssrc p fb n
+  | n + 1 => (m.slot w ssrc0 rr p fb).phase w ssrc0 rr p fb n
+
+/-- the stream's sequence number jumps forward by `d`. -/
+def M.jump (m : M) (ssrc d : Nat) : M :=
+  let seq := ((m.next.find? (·.1 == ssrc)).map (·.2)).getD 0
+  { m with next := put m.next ssrc ((seq + d) % 65536) }
 
 def M.size (m : M) : List (String × Nat) := m.k.size
 
